@@ -61,7 +61,7 @@ Definition sb_length (l : list N) : N := N.of_nat (length l).
 Fixpoint sb_elements (fuel : nat) (s : list N) (rout : list N) (d dlen : N) {struct fuel}
   : option (list N) :=
   match s with
-  | [] => Some (rev rout)
+  | [] => Some (rev_append rout [])
   | tag :: rest =>
     match fuel with
     | O => None
@@ -79,7 +79,7 @@ Fixpoint sb_elements (fuel : nat) (s : list N) (rout : list N) (d dlen : N) {str
           let len := m + 1 in
           if (sb_length rest' <? len) || (dlen <? d + len) then None
           else sb_elements fuel' (skipn (N.to_nat len) rest')
-                           (rev (firstn (N.to_nat len) rest') ++ rout) (d + len) dlen
+                           (rev_append (firstn (N.to_nat len) rest') rout) (d + len) dlen
         end
       else
         let hdr :=
@@ -98,7 +98,7 @@ Fixpoint sb_elements (fuel : nat) (s : list N) (rout : list N) (d dlen : N) {str
         | Some (len, off, rest') =>
           if (off =? 0) || (d <? off) || (dlen <? d + len) then None
           else
-            let pat := rev (firstn (N.to_nat off) rout) in
+            let pat := rev_append (firstn (N.to_nat off) rout) [] in
             sb_elements fuel' rest' (sb_copy (N.to_nat len) pat pat rout) (d + len) dlen
         end
     end
